@@ -223,6 +223,11 @@ func runSingle(t *testing.T, cfg bcfg, evs []sev) (outcome string, viol []findin
 				if len(pending) > 0 && time.Since(batchStart) >= cfg.Age {
 					commitModel()
 				}
+			case "trickle":
+				time.Sleep(cfg.Age * 6 / 10)
+				if len(pending) > 0 && time.Since(batchStart) >= cfg.Age {
+					commitModel()
+				}
 			case "failput":
 				store.FailPuts(1)
 				faulted = true
@@ -374,7 +379,10 @@ func singleHistories() (out []struct {
 		}
 		alpha := append([]sev{}, ops...)
 		if cfg.Size > 0 && cfg.Age < time.Hour {
-			alpha = append(alpha, sev{Kind: "tick"})
+			// tick: a whole age limit passes; trickle: 0.6 of it (two of them
+			// carry an open batch past its age limit although no gap between
+			// operations is as long as the limit)
+			alpha = append(alpha, sev{Kind: "tick"}, sev{Kind: "trickle"})
 		}
 		faults := []sev{{Kind: "failput"}, {Kind: "failcommit"}}
 		var rec func(prefix []sev, nfault int)
